@@ -145,6 +145,17 @@ def _peel(t):
 
 
 def run(F, R, tier, cfg):
+    # ---- hop fields are authenticated: the simulator's validator compares the MAC unless ignore_macs is configured
+    import c11
+    vh = [p for p, e in F.fns.items() if (e.get("trait_item") or "").endswith("AdvanceValidator::validate_hop") and p.startswith("<" + STD)]
+    R.floor("GS-mac-bypass", len(vh), 1, "StandardValidator::validate_hop")
+    for p in vh:
+        R.fn(p)
+        okb, whyb = c11.mac_bypass(F, p)
+        R.ob("GS-mac-bypass", "%s: no way around the MAC comparison other than ignore_macs (%s)" % (short(p), whyb), okb, True,
+             {"rule": "GS-mac-bypass", "fn": p, "detail": whyb, "holds": okb})
+        if not okb:
+            R.violation("GS-mac-bypass", p, "the simulated router can forward/deliver on a hop field whose MAC was not verified: %s" % whyb, F.loc(p))
     # ---- TBL: segment-change table
     vs = [p for p, e in F.fns.items() if (e.get("trait_item") or "").endswith("AdvanceValidator::validate_segment_change") and p.startswith("<" + STD)]
     adt = F.adts.get(LT)
